@@ -777,6 +777,10 @@ func containsFact(w *World, b *ssa.BasicBlock, s ssa.Value, sep string, idx int)
 			return true
 		}
 	}
+	// the same text written as a concatenation: the constant pieces hold the separator
+	if n := concatConstCount(s, sep, 0); n >= idx && n > 0 {
+		return true
+	}
 	for _, f := range factsAt(b) {
 		if f.Op != token.ILLEGAL || !f.Truth {
 			continue
@@ -797,6 +801,20 @@ func containsFact(w *World, b *ssa.BasicBlock, s ssa.Value, sep string, idx int)
 		}
 	}
 	return false
+}
+
+// concatConstCount: how often sep certainly occurs in a string built with +, counting its constant operands only.
+func concatConstCount(v ssa.Value, sep string, depth int) int {
+	if depth > 8 {
+		return 0
+	}
+	if cs, ok := constString(v); ok {
+		return strings.Count(cs, sep)
+	}
+	if bo, ok := v.(*ssa.BinOp); ok && bo.Op == token.ADD {
+		return concatConstCount(bo.X, sep, depth+1) + concatConstCount(bo.Y, sep, depth+1)
+	}
+	return 0
 }
 
 func derivedByTrim(trimmed, orig ssa.Value) bool {
